@@ -150,7 +150,7 @@ class Ctx:
 
     # ------------------------------------------------------------------ TLC
     def tlc(self, module, cfg_text, env=None, workers=16, simulate=None, depth=None,
-            coverage=False, timeout=900, expect_fail=False, extra=None, heap='8g',
+            coverage=False, timeout=2400, expect_fail=False, extra=None, heap='8g',
             deadlock=True, name=None, on_json_batch=None, batch=4000):
         """Run TLC on specs/<module>.tla with the given cfg text. Returns TlcResult."""
         tag = name or module
